@@ -455,6 +455,67 @@ func txSponsor(s *Stream) {
 	e.c.Commit()
 }
 
+// txLongLog: a log that grows past round numbers of records (64, 128, 256 …), with, at every length near them, a
+// transaction whose add-record succeeds and whose next message fails: the whole transaction has no effect (C15), the
+// record count and the next offset are what they were (C01).
+func txLongLog(s *Stream) {
+	e := newTxEnv(s)
+	s.Emit("reset", "-")
+	var al []string
+	for _, a := range e.accts {
+		al = append(al, fmt.Sprintf("%s:%d", hx(a.Addr), 1000))
+	}
+	al[len(al)-1] = hx(e.accts[4].Addr) + ":none"
+	s.Emit("tx.genesis "+strings.Join(al, ","), "-")
+	s.Emit(fmt.Sprintf("now %d", e.c.Time.UnixNano()), "-")
+	O, W := e.accts[0], e.accts[1]
+	run := func(signer *Acct, ms ...sdk.Msg) {
+		e.deliver(txPlan{msgs: ms, signers: []SignerSpec{{Acct: signer}}, fee: 0, mode: signing.SignMode_SIGN_MODE_DIRECT})
+	}
+	rec := func(topic string, i int) sdk.Msg {
+		return &aoltypes.MsgAddRecordRequest{TopicName: topic, Key: []byte(fmt.Sprintf("k%d", i)), Value: []byte("v"), WriterAddress: W.Bech(), OwnerAddress: O.Bech()}
+	}
+	run(O, &aoltypes.MsgCreateTopicRequest{TopicName: "log", Description: "d", OwnerAddress: O.Bech()},
+		&aoltypes.MsgAddWriterRequest{TopicName: "log", Moniker: "m", WriterAddress: W.Bech(), OwnerAddress: O.Bech()})
+	n := 0
+	for n < 260 {
+		near := false
+		for _, b := range []int{64, 128, 256} {
+			if n >= b-2 && n <= b {
+				near = true
+			}
+		}
+		if near {
+			run(W, rec("log", n), rec("no-such-topic", n)) // the second message fails: nothing of the transaction stays
+			e.state()
+			run(W, rec("log", n))
+			n++
+			e.state()
+			continue
+		}
+		var batch []sdk.Msg
+		for j := 0; j < 12 && n < 260; j++ {
+			stop := false
+			for _, b := range []int{64, 128, 256} {
+				if n == b-2 {
+					stop = true
+				}
+			}
+			if stop {
+				break
+			}
+			batch = append(batch, rec("log", n))
+			n++
+		}
+		if len(batch) > 0 {
+			run(W, batch...)
+		}
+	}
+	e.state()
+	e.c.End()
+	e.c.Commit()
+}
+
 func txHistory(s *Stream, rng *rand.Rand, steps int) {
 	e := newTxEnv(s)
 	s.Emit("reset", "-")
@@ -663,6 +724,7 @@ func init() {
 		txImpersonation(s)
 		txDidSequence(s)
 		txSponsor(s)
+		txLongLog(s)
 		for h := 0; h < n; h++ {
 			txHistory(s, rng, 15+rng.Intn(25))
 		}
